@@ -377,6 +377,26 @@ pub fn spaces(tier: Tier) -> Vec<Space> {
             if matches!(hb, Ok(Ok(true))) && !ref_ok {
                 acc.violate("C05/verify_hashbuf/kind=accepts-invalid-signature", case.idx, case.json(input.clone()), "library reports success, reference verifier rejects");
             }
+            // the digest-level verifier must not take the digest in the other byte order either (decided by the reference: the
+            // signature is valid for the reversed digest with probability 2^-256, but nothing is assumed)
+            if var == 0 {
+                let true_digest = digest_of(hash, &msg);
+                let mut rev = true_digest;
+                rev.reverse();
+                let mut half = true_digest;
+                half[16..].reverse();
+                for (name, dg) in [("byte-reversed digest", rev), ("digest with its second half reversed", half)] {
+                    let ref_rev = secp::verify(&kt.q[c[0] as usize], &z_of(&dg), &r, &s);
+                    acc.transitions += 1;
+                    let got = guard(|| {
+                        let pk = lib_key(d, true).to_public_key()?;
+                        ECDSA::verify_hashbuf(&dg, &pk, &sig)
+                    });
+                    if matches!(got, Ok(Ok(true))) && !ref_rev {
+                        acc.violate("C05/verify_hashbuf/kind=accepts-invalid-signature", case.idx, case.json(json!({"signer": hx(&secp::be32(d)), "signed_msg": hx(&msg), "signed_hash": hash, "variation": name})), "library reports success for a digest that differs from the signed one, reference verifier rejects");
+                    }
+                }
+            }
             // the message-level verifiers (SHA-256 only): every one of them must agree with the reference verdict
             if vhash == 0 {
                 acc.transitions += 3;
